@@ -41,10 +41,10 @@ func (sc Scenario) spellable() bool {
 
 // spell configures the id interceptor and lets every caller pick a spelling of its id
 func (sc *Scenario) spell(rng *rand.Rand) {
-	sc.Icpt = true
 	pick := func(o *Op) {
 		if o.K == "u" || o.K == "d" {
 			o.Sp = rng.Intn(2)
+			sc.Icpt = true
 		}
 	}
 	for _, p := range sc.Progs {
@@ -187,8 +187,9 @@ func (r *Run) canonPlain() string {
 	return strings.Join(parts, "|") + "|store=" + showContents(r.Final)
 }
 
-// pubDriverLine: the run as a schedule of the publication-layer model (Send.lean, prun): a committed Value.Set
-// makes its publication as the thread's next step; Collection.Update publishes without a budget, as part of the
+// pubDriverLine: the run as a schedule of the answer layer (Answer.lean, arun with handlers that answer the way
+// the code does) on top of the publication-layer model (Send.lean, prun): a committed Value.Set makes its
+// publication as the thread's next step, and the handler around the call answers in that step; Collection.Update publishes without a budget, as part of the
 // call's last step in the model, so the steps released from coll.update.beforeSend are left out
 func pubDriverLine(sc Scenario, r *Run) string {
 	var ps []int
@@ -199,13 +200,13 @@ func pubDriverLine(sc Scenario, r *Run) string {
 		ps = append(ps, t)
 	}
 	f := strings.Fields(driverLine(sc, r.Progs, ps)) // run 1 clock cands init progs sched
-	return fmt.Sprintf("send 0 %s %s %s %s", f[2], f[4], f[5], f[6])
+	return fmt.Sprintf("answer own %s %s %s %s", f[2], f[4], f[5], f[6])
 }
 
 // pubFamily: hooked executions in which a thread also parks between its save and its publication
 func pubFamily(f lib.Flags, res *lib.Result, rng *rand.Rand, mon *lib.Monitor) {
 	tie := res.Tie("publish-window", "K4",
-		"hooked executions in which the publication after the commit is a step of its own (threads also park at value.set.beforeSend / coll.update.beforeSend: value stored, call not returned - what a slow subscriber with backpressure does to a writer): write HANDLERS of a trait server (countpb.MemoryDevice.UpdateCount as fetch-and-add / absolute / masked, ResetCount), the trait callers and plain Set / Update / Add / Delete; per-call RESPONSES and the final contents compared with prun(model) of the publication layer (Send.lean) on the same schedule; all schedules of the witness scenarios, random schedules of random scenarios; non-trivial = at least two calls overlapped; distinct = distinct (scenario, schedule)")
+		"hooked executions in which the publication after the commit is a step of its own (threads also park at value.set.beforeSend / coll.update.beforeSend: value stored, call not returned - what a slow subscriber with backpressure does to a writer): write HANDLERS of a trait server (countpb.MemoryDevice.UpdateCount as fetch-and-add / absolute / masked, ResetCount), the trait callers and plain Set / Update / Add / Delete; per-call RESPONSES and the final contents compared with the answers of arun(own) (the answer layer Answer.lean on top of the publication layer Send.lean: the theorems C02_handler_answers_are_the_reported_results / C02_reported_result_is_final speak about them) on the same schedule; all schedules of the witness scenarios, random schedules of random scenarios; non-trivial = at least two calls overlapped; distinct = distinct (scenario, schedule)")
 	ctl := k4.New(parkPointsPub...)
 	type pcase struct {
 		sc  Scenario
